@@ -81,6 +81,24 @@ func (r *Run) Expired() bool {
 	return !r.Deadline.IsZero() && time.Now().After(r.Deadline)
 }
 
+// Slice gives the next of `left` remaining work items of this worker a fair
+// share of the time that remains before the deadline: it moves the deadline
+// forward for the duration of the item and returns the function that restores
+// it. An item that finishes early leaves its time to the following ones, and
+// one that does not reach its fixpoint no longer starves those after it.
+func (r *Run) Slice(left int) func() {
+	if r.Deadline.IsZero() || left <= 1 {
+		return func() {}
+	}
+	final := r.Deadline
+	rem := time.Until(final)
+	if rem <= 0 {
+		return func() {}
+	}
+	r.Deadline = time.Now().Add(rem / time.Duration(left))
+	return func() { r.Deadline = final }
+}
+
 // Violation is one property violation with a replayable description.
 type Violation struct {
 	Key    string      `json:"key"`
